@@ -88,7 +88,9 @@ def registry0(nxt='all', data='bytes', direction='enc'):
                                      '_next': nxt_t(NEXTS[nxt]), '_state': 'obj:native.OCBPtr'}, valid=list(VALID)))
     # _update: exactly the first assoc_data_len bytes go to OCB_update
     reg.add(Contract(C + '._update', params={'assoc_data': 'buffer', 'assoc_data_len': 'nat'}, requires=['assoc_data_len <= len(assoc_data)'], raises={},
-                     ensures={'fed': '%sg_A == old(%sg_A) + bytes(assoc_data)[:assoc_data_len]' % (ST, ST)}, modifies={'self._state.g_st.g_A': 'bytes'},
+                     ensures={'fed': '%sg_A == old(%sg_A) + bytes(assoc_data)[:assoc_data_len]' % (ST, ST),
+                              'whole': 'assoc_data_len == len(assoc_data) ==> %sg_A == old(%sg_A) + bytes(assoc_data)' % (ST, ST)},
+                     modifies={'self._state.g_st.g_A': 'bytes'},
                      options={'assume_valid': False}))
     # update (C09): native AAD + cache == everything passed so far; only whole blocks reach the C code
     reg.add(Contract(C + '.update', params={'assoc_data': data},
@@ -101,7 +103,6 @@ def registry0(nxt='all', data='bytes', direction='enc'):
                                       'split1': '(len(old(self._cache_A)) > 0 and len(old(self._cache_A)) + len(assoc_data) >= 16) ==> bytes(assoc_data) == bytes(assoc_data)[:filler] + bytes(assoc_data)[filler:]',
                                       'split2': '(len(old(self._cache_A)) > 0 and len(old(self._cache_A)) + len(assoc_data) >= 16) ==> bytes(assoc_data)[filler:] == bytes(assoc_data)[filler:][:update_len] + bytes(assoc_data)[filler:][update_len:]',
                                       'seg_len': '(len(old(self._cache_A)) > 0 and len(old(self._cache_A)) + len(assoc_data) >= 16) ==> len(seg) == 16',
-                                      'seg_whole': '(len(old(self._cache_A)) > 0 and len(old(self._cache_A)) + len(assoc_data) >= 16) ==> seg[:16] == seg',
                                       'fed': '(len(old(self._cache_A)) > 0 and len(old(self._cache_A)) + len(assoc_data) >= 16) ==> %sg_A == old(%sg_A) + seg + bytes(assoc_data)[filler:][:update_len]' % (ST, ST),
                                       'cache': '(len(old(self._cache_A)) > 0 and len(old(self._cache_A)) + len(assoc_data) >= 16) ==> self._cache_A == bytes(assoc_data)[filler:][update_len:]'}},
                      modifies={'self._next': nxt_t(['encrypt', 'decrypt', 'digest', 'verify', 'update']), 'self._cache_A': 'bytes', 'self._state.g_st.g_A': 'bytes'},
@@ -113,8 +114,10 @@ def registry0(nxt='all', data='bytes', direction='enc'):
         OUT = 'spec.aead2.ocb_crypt(%sg_id, len(old(%sg_M)), %%s, %s)' % (ST, ST, dec)
         reg.add(Contract(C + '._transcrypt_aligned', params={'in_data': 'bytes', 'in_data_len': 'nat', 'trans_func': ('const', fn), 'trans_desc': 'str'},
                          requires=['in_data_len <= len(in_data)'], raises={},
-                         ensures={'out': 'result == %s' % (OUT % 'in_data[:in_data_len]'),
-                                  'msg': '%sg_M == old(%sg_M) + %s' % (ST, ST, 'result' if dec else 'in_data[:in_data_len]')},
+                         ensures={'out': 'result == %s' % (OUT % 'bytes(in_data)[:in_data_len]'),
+                                  'msg': '%sg_M == old(%sg_M) + %s' % (ST, ST, 'result' if dec else 'bytes(in_data)[:in_data_len]'),
+                                  'whole': 'in_data_len == len(in_data) ==> (result == %s and %sg_M == old(%sg_M) + %s)'
+                                           % (OUT % 'bytes(in_data)', ST, ST, 'result' if dec else 'bytes(in_data)')},
                          modifies={'self._state.g_st.g_M': 'bytes'}, result='bytes', options={'assume_valid': False}))
     return reg
 
@@ -219,7 +222,7 @@ def units(prop, tier):
         for nxt in NEXTS:
             for d, m in (('enc', 'encrypt'), ('dec', 'decrypt')):
                 us.append(_unit(prop, 'ocb.fsm.%s.%s' % (nxt, m), [C + '.' + m], nxt=nxt, direction=d))
-            us.append(_unit(prop, 'ocb.fsm.%s.rest' % nxt, [C + '.' + m for m in ('update', 'digest', 'verify')], nxt=nxt))
+            us.append(_unit(prop, 'ocb.fsm.%s.rest' % nxt, [C + '.' + m for m in ('update', 'digest', 'verify')], timeout_ms=90000, nxt=nxt))
     return us
 
 
@@ -228,3 +231,11 @@ def units(prop, tier):
 #   ctypes plumbing VoidPointer/SmartPointer/OCB_start_operation).  Covered only by the bounded harness (bounded/modes.py OCB, all nonce lengths 1..15
 #   and tag lengths 8..16 against spec.ref_ocb).
 # NOT PROVED: encrypt_and_digest / decrypt_and_verify of OcbMode (compositions of the proved methods).
+#
+# ROBUSTNESS NOTE: three obligations of _transcrypt (block-completing path: out3 / msg3 / stream) are word equations
+#   over a concatenation cut at a symbolic point; they need 10-30 s (cvc5 or a second z3 seed) where everything else needs < 3 s.  Their units get
+#   a 90 s per-query budget.
+# Mutants (tools/mut.py, lib/Crypto/Cipher/_mode_ocb.py):
+#   M17 C09 update: `filler = min(15 - len(self._cache_A), ...`                   -> exit 1, update lemma.fill
+#   M18 C01 _compute_mac_tag: `get_raw_buffer(mac_tag)[:self._mac_len - 1]`       -> exit 1, _compute_mac_tag ensures.tag / ensures.len
+#   M19 C10 encrypt: finaliser sets `self._next = ["digest", "encrypt"]`          -> exit 1, encrypt ensures.next
